@@ -1481,6 +1481,158 @@ class RlaSum(Family):
 
 
 @register
+class RlaMean(Family):
+    """RunLengthArray.mean() against the contract of its callee: the callee's `sum()` (proved for integers: RunLengthArray.sum) of an array with the same
+    run boundaries and the receiver's values (value-preserving conversion to float allowed), divided by the length of the decoded array.  Float division is an uninterpreted function of its operands; the float sum itself stays with the bounded stand-in."""
+    name = "RunLengthArray.mean"
+    qualname = "npstructures.runlengtharray:RunLengthArray.mean"
+    serves = ["C16"]
+    assumed = ["callee contract RunLengthArray.sum (integer values proved in RunLengthArray.sum; float sums: bounded stand-in)",
+               "numpy true division as an uninterpreted function of its two operands", "int -> float conversion as a value-preserving embedding"]
+
+    def kinds(self):
+        return ["int64", "float64"]
+
+    def extra_functions(self):
+        return ["RunLengthArray.astype", "RunLengthArray.__init__", "RunLengthArray.size"]
+
+    def run(self, ctx, kind):
+        from npstructures.runlengtharray import RunLengthArray
+        from ..sym.arr import SElem, coerce_term, apply_binary
+        dt = np.dtype(kind)
+        a = sym_rla(ctx, kind="int" if dt.kind == "i" else "elem")
+        a.va.dtype = dt
+        m, E, V = a.m, a.E, a.V
+        sumc = z3.Const("callee_sum", ElemSort)
+        calls = []
+        old = RunLengthArray.__dict__["sum"]
+
+        def sum_stub(self_, *args, **kw):
+            calls.append((self_, args, kw))
+            return SElem(sumc, np.float64)
+        RunLengthArray.sum = sum_stub
+        try:
+            res = a.obj.mean()
+        finally:
+            RunLengthArray.sum = old
+        ok = len(calls) == 1
+        ctx.prove("post.exactly one sum", z3.BoolVal(ok))
+        if not ok:
+            return
+        recv = calls[0][0]
+        ctx.prove("post.the summed array has as many runs", z3.And(dim_term(recv._values.shape_[0]) == m, dim_term(recv._events.shape_[0]) == m + 1))
+        t = z3.Int("t")
+        ctx.skolem(z3.And(0 <= t, t <= m))
+        ctx.prove("post.the summed array has the receiver's run boundaries", recv._events.get(t) == E(t), pool=[t])
+        t2 = z3.Int("t2")
+        ctx.skolem(z3.And(0 <= t2, t2 < m))
+        # value-preserving: converted to float or left as they are (an exact integer sum divided afterwards is the same mean)
+        ctx.prove("post.the summed array holds the receiver's values", coerce_term(recv._values.get(t2), "elem") == coerce_term(V(t2), "elem"), pool=[t2])
+        ctx.prove("post.mean == sum / length of the decoded array", z3.And(z3.BoolVal(isinstance(res, SElem)),
+                  (res.t if isinstance(res, SElem) else sumc) == apply_binary("true_divide", sumc, E(m))), pool=[m])
+        ctx.prove("post.operand not modified", z3.BoolVal(a.ev.buf.writes == 0 and a.va.buf.writes == 0))
+
+    def concrete(self, case):
+        import math
+        from npstructures import RunLengthArray
+        x = np.array(case["a"], dtype=case["dt"])
+        r = RunLengthArray.from_array(x)
+        exp = sum(float(v) for v in x.tolist()) / len(x)
+        for what, f in (("mean()", lambda: r.mean()), ("np.mean", lambda: np.mean(r))):
+            try:
+                got = f()
+            except Exception as e:
+                return {"msg": f"{what} of rla({case['a']}, {case['dt']}) raised {type(e).__name__}: {e}", "sig": "raised:rla-mean"}
+            if not math.isclose(float(got), exp, rel_tol=1e-12, abs_tol=1e-12):
+                return {"msg": f"{what} of rla({case['a']}, {case['dt']}) = {got}, expected {exp}", "sig": "wrong:rla-mean"}
+
+    def concretise(self, kind, model, ghost):
+        return {"a": [3, 3, -5, 7, 7, 7, 2] if kind == "int64" else [0.5, 0.5, 2.25, -1.0, -1.0], "dt": kind}
+
+    def bounded_cases(self, tier, seed):
+        for case in RlaUfunc.bounded_cases(self, tier, seed):
+            if "a" in case and len(case["a"]):
+                yield {"a": case["a"], "dt": "int64"}
+                yield {"a": [v / 2 for v in case["a"]], "dt": "float64"}
+
+
+@register
+class RlaHistogram(Family):
+    """np.histogram(rla[, bins, range]) hands numpy the run values weighted by the run lengths: one call, values == the run values, weights[t] == length
+    of run t, bins / range passed through.  That a histogram of the decoded array equals the histogram of the run values weighted by their multiplicities is
+    the (assumed) meaning of numpy's `weights`; the decoded-array comparison itself stays with the bounded stand-in."""
+    name = "runlengtharray.histogram"
+    qualname = "npstructures.runlengtharray:histogram"
+    serves = ["C16"]
+    assumed = ["numpy.histogram(values, weights=w) counts value t with multiplicity w[t] (meaning of `weights`; bin edges computed by numpy from the same value set)",
+               "numpy.diff"]
+
+    def kinds(self):
+        return ["default", "bins", "bins+range"]
+
+    def run(self, ctx, kind):
+        from ..sym import symnp
+        a = sym_rla(ctx, kind="elem")
+        m, E, V = a.m, a.E, a.V
+        calls = []
+
+        def hist_rec(self_, *args, **kw):
+            calls.append((args, kw))
+            return "HISTOGRAM"
+        had = "histogram" in symnp.SymNumpy.__dict__
+        old = symnp.SymNumpy.__dict__.get("histogram")
+        symnp.SymNumpy.histogram = hist_rec
+        import npstructures.runlengtharray as rlmod
+        try:
+            extra = {"default": (), "bins": (7,), "bins+range": (5, (0, 10))}[kind]
+            res = rlmod.histogram(a.obj, *extra)
+        finally:
+            if had:
+                symnp.SymNumpy.histogram = old
+            else:
+                del symnp.SymNumpy.histogram
+        ok = len(calls) == 1 and res == "HISTOGRAM"
+        ctx.prove("post.exactly one numpy.histogram, its result returned", z3.BoolVal(ok))
+        if not ok:
+            return
+        args, kw = calls[0]
+        names = ["a", "bins", "range", "density", "weights"]
+        got = dict(zip(names, args))
+        got.update(kw)
+        vals, w = got.get("a"), got.get("weights")
+        want_bins, want_range = {"default": (10, None), "bins": (7, None), "bins+range": (5, (0, 10))}[kind]
+        ctx.prove("post.bins / range passed through, no density", z3.BoolVal(got.get("bins", 10) == want_bins and got.get("range") == want_range and got.get("density") is None))
+        ok2 = isinstance(vals, SymArr) and isinstance(w, SymArr)
+        ctx.prove("post.values and weights are arrays with one entry per run", z3.And(z3.BoolVal(ok2), *([dim_term(vals.shape_[0]) == m, dim_term(w.shape_[0]) == m] if ok2 else [])))
+        if not ok2:
+            return
+        t = z3.Int("t")
+        ctx.skolem(z3.And(0 <= t, t < m))
+        ctx.prove("post.histogram of the run values", vals.get(t) == V(t), pool=[t])
+        ctx.prove("post.weighted by the run lengths", w.get(t) == E(t + 1) - E(t), pool=[t, t + 1])
+        ctx.prove("post.operand not modified", z3.BoolVal(a.ev.buf.writes == 0 and a.va.buf.writes == 0))
+
+    def concrete(self, case):
+        from npstructures import RunLengthArray
+        x = np.array(case["a"])
+        r = RunLengthArray.from_array(x)
+        for what, f in (("np.histogram(rla)", lambda y: np.histogram(y)), ("np.histogram(rla, 7)", lambda y: np.histogram(y, 7)),
+                        ("np.histogram(rla, 5, (0, 10))", lambda y: np.histogram(y, 5, (0, 10)))):
+            try:
+                got = f(r)
+            except Exception as e:
+                return {"msg": f"{what} of rla({case['a']}) raised {type(e).__name__}: {e}", "sig": "raised:rla-histogram"}
+            exp = f(x)
+            if not (np.array_equal(got[0], exp[0]) and np.allclose(got[1], exp[1])):
+                return {"msg": f"{what} of rla({case['a']}) = {got[0].tolist()}, numpy on the decoded array {exp[0].tolist()}", "sig": "wrong:rla-histogram"}
+
+    def concretise(self, kind, model, ghost):
+        return {"a": [3, 3, 0, 7, 7, 7, 2]}
+
+    bounded_cases = RlaUfunc.bounded_cases
+
+
+@register
 class RlaRoundTrip(Family):
     """C14's first sentence as a lemma over the two proved contracts: decoding an encoded array gives the original, element by element.
     Hypotheses: exactly the contract formulas of from_array and to_array (shared with their proofs).  bits: elements are bit patterns and != is
